@@ -245,6 +245,32 @@ def r2_save_mutate_restore(ctx, rep, R='C18.R2'):
                           'no teardown hook called by Runner.run undoes %s done in %s' % (canon, sf.qualname),
                           key='restore:%s@%s' % (canon, sf.qualname),
                           func=(where_t or sf).qualname, where=ctx.where(where_t or sf, (where_t or sf).node))
+        # a hook that the package REPLACES (sys.settrace = <own wrapper>) and also CALLS to restore
+        # the previous trace function: the restoring call must go to the real function, i.e. the
+        # attribute is put back before the call (the wrapper may filter -- coverage.settrace drops
+        # None, so "sys.settrace(None)" through it leaves the tracer installed)
+        replaced = {canon for _h, sf in s_all for kind, canon, _n in _mutations(ctx, sf) if kind == 'store'}
+        for thook, tf in t_all:
+            muts = _mutations(ctx, tf)
+            for kind, canon, node in muts:
+                if kind != 'call' or canon not in replaced:
+                    continue
+                g = ctx.cfg(tf)
+                cn = [x.id for x in g.nodes if x.ast is not None and any(y is node for y in ast.walk(x.ast))]
+                sn = [x.id for x in g.nodes if x.ast is not None and any(
+                    any(y is n2 for y in ast.walk(x.ast)) for k2, c2, n2 in muts if k2 == 'store' and c2 == canon)]
+                okd = bool(cn) and bool(sn)
+                if okd:
+                    dom = g.dominators()
+                    okd = all(any(s_ in dom[c_] for s_ in sn) for c_ in cn)
+                n += 1
+                rep.check(okd, R, '%s: %s(<saved>) is called after %s itself was put back' % (
+                    tf.qualname, canon, canon),
+                    '%s restores the previous value by calling %s while that name is still bound to the '
+                    'replacement installed by the set-up hook: the call goes through the wrapper (which '
+                    'may drop it, e.g. for None) and the hook of this run stays installed'
+                    % (tf.qualname, canon), key='restore-through-wrapper:%s@%s' % (canon, tf.qualname),
+                    func=tf.qualname, where=ctx.where(tf, node))
         # profiler style: hook methods rebound to bound methods of the same object
         for sf in setups:
             reb = {}
